@@ -77,7 +77,7 @@ def handle (toks : List String) : String :=
     match parseIntList? ys, parseNatList? ms, parseNatList? ds, parseNatList? hs with
     | some ys, some ms, some ds, some hs =>
       let stamps := (ys.zip (ms.zip (ds.zip hs))).map fun t => ({ y := t.1, m := t.2.1, d := t.2.2.1, h := t.2.2.2 } : Stamp)
-      match computeAggindex step stamps with
+      match computeAggindex step.toList stamps with
       | .ok out => "ok " ++ fmtIntList out
       | .error e => "err " ++ errName e
     | _, _, _, _ => "bad-op"
